@@ -25,7 +25,7 @@ package parquet
 
 // Shape invariant of the metadata accumulator: a serializer is attached and
 // every row group carries its column map.
-//@ pred metaOK(m) := m != nil && m.ts != nil && (forall k in 0..#m.rowGroups: m.rowGroups[k].columns != nil && ref(m.rowGroups[k].rowGroup.Columns) == 0)
+//@ pred metaOK(m) := m != nil && m.ts != nil && (forall k in 0..#m.rowGroups: m.rowGroups[k].columns != nil && ref(m.rowGroups[k].rowGroup.Columns) == 0 && #m.rowGroups[k].rowGroup.Columns == 0)
 
 // C06: row accounting. The last row group is the open one; closed groups never change.
 //@ pred lastRows(m) := m.rowGroups[#m.rowGroups - 1].rowGroup.NumRows
@@ -141,6 +141,8 @@ package parquet
 //@ loop (schema).schema#2
 //@   invariant freshsince(out) && #out >= 1
 
+// C02: the chunks a footer lists lie back to back in listing order, the first at byte 4
+//@ pred cEnd(c) := c.FileOffset + c.MetaData.TotalCompressedSize
 //@ func (*Metadata).Footer
 //@   requires metaOK(m) && external(w)
 //@   modifies heap("sch.ColumnMetaData"), heap("sch.SchemaElement"), wfault, snk, ser
@@ -154,6 +156,9 @@ package parquet
 //@   invariant[C06] fmd.NumRows == rowsSum(HA(m.rowGroups), off(m.rowGroups), rangeindex + 1) && #fmd.RowGroups == groupsKept(HA(m.rowGroups), off(m.rowGroups), rangeindex + 1)
 //@ loop (*Metadata).Footer#2
 //@   invariant wfault == old(wfault) && snkPos == old(snkPos) && snkB == old(snkB) && freshOrNil(rg.Columns) && freshOrNil(fmd.RowGroups) && fmd != nil && freshsince(fmd)
+//@   invariant[C02] forall t in 0..#rg.Columns: allocated(rg.Columns[t])
+//@   invariant[C02] forall t in 0..#rg.Columns - 1: rg.Columns[t + 1].FileOffset == cEnd(rg.Columns[t])
+//@   invariant[C02] #rg.Columns >= 1 ==> pos == cEnd(rg.Columns[#rg.Columns - 1])
 //@   invariant[C06] fmd.NumRows == rowsSum(HA(m.rowGroups), off(m.rowGroups), rangeindex$1 + 1) && #fmd.RowGroups == groupsKept(HA(m.rowGroups), off(m.rowGroups), rangeindex$1 + 1) && rg.NumRows == m.rowGroups[rangeindex$1 + 1].rowGroup.NumRows && rg.NumRows != 0 && 0 <= rangeindex$1 + 1 && rangeindex$1 + 1 < #m.rowGroups
 
 //@ func schemaElements
@@ -326,7 +331,7 @@ package parquet
 //@ recfn cntEq(A array<int>, off int, n int, m int) int := ite(n <= 0, 0, cntEq(A, off, n - 1, m) + ite(A[off + n - 1] == m, 1, 0))
 //@ func (*OptionalField).valsFromDefs
 //@   modifies nothing
-//@   requires[C04] #defs == curNV
+//@   requires[C04] #defs == curNV || defs == f.Defs   // one page's levels, or the field's whole level list
 //@   ensures[C04] res == cntEq(HA(defs), off(defs), #defs, max)
 //@ loop (*OptionalField).valsFromDefs#1
 //@   invariant[C04] 0 <= rangeindex + 1 && rangeindex + 1 <= #defs && out == cntEq(HA(defs), off(defs), rangeindex + 1, max)
